@@ -90,7 +90,11 @@ impl Group for Rules {
 const PLACEHOLDER: &[u8] = b"NNNNNNNNNNNNNNNNNNNNNN==";
 
 fn gen_body(rng: &mut Rng) -> Vec<u8> {
-    let toks: [&[u8]; 14] = [b"nonce=", b"\"", b"'", b"=", b">", b"<script ", b"x", b" ", b"nonce", b"abc", b"\"v\"", b"'w'", b"\"\"", b"nonce=\"old\""];
+    // values shorter than, as long as, and longer than the 24 characters of a nonce (the body shifts left or right
+    // under the rewrite), followed closely by more attributes
+    let toks: [&[u8]; 19] = [b"nonce=", b"\"", b"'", b"=", b">", b"<script ", b"x", b" ", b"nonce", b"abc", b"\"v\"", b"'w'", b"\"\"", b"nonce=\"old\"",
+        b"nonce=\"0123456789abcdefghijklmn\"", b"nonce=\"0123456789abcdefghijklmno\"", b"nonce='a placeholder which is much longer than the nonce that replaces it'",
+        b"\"this quoted value has forty-one characters\"", b"'0123456789012345678901234567890123456789012345678901234567890123456789'"];
     let k = rng.below(11);
     let mut b = Vec::new();
     for _ in 0..k {
@@ -194,6 +198,17 @@ impl Group for NonceRewrite {
         let mut v = Vec::new();
         for b in [&b""[..], b"nonce=", b"<b nonce=>zz", b"<s nonce=\"x\">", b"a nonce='x' b nonce=\"y\" c", b"nonce=\"", b"nonce='abc", b"nonce=\"\"", b"nonce=nonce=", b"<s nonce=\"nonce='q'\">"] {
             v.push(format!("c14.nonce {} {}", hex(b), hex(PLACEHOLDER)));
+        }
+        // a long placeholder, then a second attribute 0-60 bytes after its closing quote
+        for long in [25usize, 26, 30, 48, 80] {
+            for gap in [0usize, 1, 2, 5, 6, 7, 10, 20, 23, 24, 25, 40, 60] {
+                let mut b = b"<script nonce=\"".to_vec();
+                b.extend(std::iter::repeat(b'p').take(long));
+                b.extend_from_slice(b"\"");
+                b.extend(std::iter::repeat(b'.').take(gap));
+                b.extend_from_slice(b"nonce=\"x\"><style nonce='y'>");
+                v.push(format!("c14.nonce {} {}", hex(&b), hex(PLACEHOLDER)));
+            }
         }
         let toks: [&[u8]; 9] = [b"nonce=", b"\"", b"'", b"=", b">", b"x", b"\"v\"", b"''", b" "];
         let depth = 3;
